@@ -6,7 +6,7 @@ use crate::base::{
 use crate::utils::format_time_nanos_curr;
 use crate::{Error, Result};
 use std::sync::Arc;
-use std::sync::RwLock;
+use crate::vsync::RwLock;
 
 // EntryBuilder is the basic API of Sentinel.
 pub struct EntryBuilder {
